@@ -50,10 +50,15 @@ impl World for Monitors {
     }
     fn default_runs(&self, prop: &str, tier: Tier) -> u64 {
         match (prop, tier) {
-            ("C14", Tier::Quick) => 1200,
-            ("C14", Tier::Thorough) => 60_000,
-            (_, Tier::Quick) => 500,
-            (_, Tier::Thorough) => 25_000,
+            // measured on 16 processes of an otherwise idle machine: C36/C37 ~15 runs/s,
+            // C33 ~7 runs/s, C14 ~18 runs/s (thorough runs are about twice as long)
+            // (quick ~ 20 s, thorough ~ 8 min there; several times slower while other builds run)
+            ("C14", Tier::Quick) => 1_000,
+            ("C14", Tier::Thorough) => 36_000,
+            ("C33", Tier::Quick) => 500,
+            ("C33", Tier::Thorough) => 20_000,
+            (_, Tier::Quick) => 600,
+            (_, Tier::Thorough) => 20_000,
         }
     }
     fn nontrivial_min_ops(&self, _prop: &str) -> u64 {
